@@ -61,7 +61,8 @@ def main():
     for wt in wts.values():
         sh(["git", "-C", "/repo", "worktree", "remove", "--force", wt])
     # restore generated tables for the real repo
-    sh(["/venv/bin/python", os.path.join(V, "tools", "translate.py"), "--repo", "/repo", "--out", os.path.join(V, "lean", "Cpl", "Gen")])
+    for tool in ("translate.py", "py2lean.py"):
+        sh(["/venv/bin/python", os.path.join(V, "tools", tool), "--repo", "/repo", "--out", os.path.join(V, "lean", "Cpl", "Gen")])
     json.dump(results, open(os.path.join(V, "mutants", "RESULTS.json"), "w"), indent=1)
     missed = [n for n, r in results.items() if not r.get("detected")]
     print("detected %d / %d; missed: %s" % (len(results) - len(missed), len(results), missed))
